@@ -89,6 +89,9 @@ pub enum Reader {
     /// release in lumps: only once this many bytes are held, and the rest at the end of the body — followed at
     /// once by the drop of the handle
     Lump(usize),
+    /// read to the end without ever releasing anything, then drop the handle (what was read comes back to the
+    /// windows when the handle goes)
+    NoRelease,
 }
 
 #[derive(Clone, Debug, Serialize, Deserialize)]
@@ -324,10 +327,11 @@ fn gen_reader(t: &mut Tape, focus: Focus) -> Reader {
             0 => Reader::Eager,
             _ => Reader::Deferred(1 + t.below(8)),
         },
-        _ => match t.weighted(&[3, 2, 2]) {
+        _ => match t.weighted(&[3, 2, 2, 1]) {
             0 => Reader::Eager,
             1 => Reader::Deferred(1 + t.below(8)),
-            _ => Reader::DropAfter(*t.pick(&[0usize, 1, 100, 5000, 20000])),
+            2 => Reader::DropAfter(*t.pick(&[0usize, 1, 100, 5000, 20000])),
+            _ => Reader::NoRelease,
         },
     }
 }
@@ -572,7 +576,9 @@ pub fn fields_of(m: &http::HeaderMap) -> Vec<(String, String)> {
 pub fn extra_fields(key: u32, m: &Msg, map: &mut http::HeaderMap) {
     for i in 0..m.nfields {
         let name = format!("x-f{}", (i + key as usize) % 7);
-        let val = format!("v{}-{}", key, i);
+        // (every third message carries one value of 198..207 'a's: 202 and 203 of them Huffman-code to exactly 127
+        // octets, the boundary of the one-octet string length)
+        let val = if i == 1 && (key as usize + m.nfields) % 3 == 0 { "a".repeat(198 + (key % 10) as usize) } else { format!("v{}-{}", key, i) };
         let mut v = http::HeaderValue::from_str(&val).unwrap();
         if m.sensitive && i == 0 {
             v.set_sensitive(true);
@@ -776,6 +782,16 @@ async fn send_body(mut st: SendStream<SegBuf>, m: Msg, key: u32, side: Side, log
         let name = format!("{}-resetwatch-{}", if side == Side::Client { "c" } else { "s" }, key);
         let group = if side == Side::Client { Group::ClientApp } else { Group::ServerApp };
         sp.spawn(name, group, async move {
+            // (the first poll happens under a different waker — a handle that was polled once where it was created and
+            // then moved into its task: the waker of the latest poll is the one that counts)
+            {
+                let w = crate::mockio::noop_waker();
+                let mut cx2 = std::task::Context::from_waker(&w);
+                if let Poll::Ready(r) = st.poll_reset(&mut cx2) {
+                    log.push(side, key, Api::PollReset { result: r.map(u32::from).map_err(|e| err_info(&e)) });
+                    return;
+                }
+            }
             let r = poll_fn(|cx| st.poll_reset(cx)).await;
             log.push(side, key, Api::PollReset { result: r.map(u32::from).map_err(|e| err_info(&e)) });
         });
@@ -811,6 +827,11 @@ async fn read_body(mut rs: RecvStream, reader: Reader, key: u32, side: Side, log
                 if let Reader::Deferred(d) = reader {
                     yield_n(d).await;
                 }
+                if reader == Reader::NoRelease {
+                    // (given back only if the stream fails; at a clean end the handle is simply dropped)
+                    held += n;
+                    continue;
+                }
                 if let Reader::Lump(l) = reader {
                     held += n;
                     if held >= l {
@@ -834,13 +855,19 @@ async fn read_body(mut rs: RecvStream, reader: Reader, key: u32, side: Side, log
             }
             None => {
                 log.push(side, key, Api::RecvDataEnd);
-                if held > 0 {
+                if held > 0 && reader != Reader::NoRelease {
                     let r = rs.flow_control().release_capacity(held);
                     log.push(side, key, Api::Released { n: held, err: r.err().map(|e| e.to_string()) });
                 }
                 break;
             }
         }
+    }
+    if reader == Reader::NoRelease {
+        // (not logged as the end of reading: what was read and never released stays charged until the *last* handle of
+        // the stream is gone, which this task cannot know)
+        drop(rs);
+        return;
     }
     let t = poll_fn(|cx| rs.poll_trailers(cx)).await;
     match t {
@@ -1460,7 +1487,12 @@ fn do_pushes(respond: &mut server::SendResponse<SegBuf>, r: &Req, key: u32, ctx:
     let log = ctx.log.clone();
     for (n, p) in r.pushes.iter().enumerate() {
         let pkey = key * 1000 + n as u32;
-        let preq = http::Request::builder().method("GET").uri(format!("https://example.com/p/{}", pkey)).header("x-push", n.to_string()).body(()).unwrap();
+        let mut preq = http::Request::builder().method("GET").uri(format!("https://example.com/p/{}", pkey)).header("x-push", n.to_string()).body(()).unwrap();
+        if p.resp.big >= 17000 {
+            // a promised request whose header block needs CONTINUATION frames
+            let sbig: String = (0..p.resp.big).map(|i| (b'a' + ((i as u32 + pkey) % 26) as u8) as char).collect();
+            preq.headers_mut().insert("x-pbig", http::HeaderValue::from_str(&sbig).unwrap());
+        }
         let mut f = vec![(":method".to_string(), "GET".to_string()), (":uri".into(), preq.uri().to_string())];
         f.extend(fields_of(preq.headers()));
         match respond.push_request(preq) {
